@@ -352,6 +352,18 @@ func (c *FnCtx) applyCallee(st *State, site ast.Node, key string, sig *types.Sig
 	ct := c.eng.contracts[key]
 	isRepo := strings.HasPrefix(key, repoPrefix)
 	nres := sig.Results().Len()
+	fiCallee := c.eng.funcs[key]
+	if isRepo && recv != nil && fiCallee != nil && isPointer(fiCallee.Obj.Type().(*types.Signature).Recv().Type()) && (ct == nil || !ct.NilRecv) {
+		// implicit precondition of every pointer-receiver method: the receiver is not nil
+		g := mkNot(mkEq(recv, intLit(0)))
+		c.oblige(st, "pre", site, shortFuncKey(key)+"#recv", "receiver of "+shortFuncKey(key)+" is not nil", g)
+		st.assume(g)
+	}
+	if ct == nil && isRepo && fiCallee == nil {
+		// method of an interface declared in the repository: a pure observer of its receiver
+		c.assumptionsUsed["methods of repository interfaces without contract are pure observers of the receiver: "+shortFuncKey(key)] = true
+		return c.pureApp(st, key, sig, recv, args)
+	}
 	if ct == nil {
 		if isRepo {
 			// repository function without contract: results unconstrained, heap havocked
@@ -407,9 +419,8 @@ func (c *FnCtx) applyCallee(st *State, site ast.Node, key string, sig *types.Sig
 	}
 	// results
 	var rs []*Term
-	if ct.Pure && !isRepo && len(ct.Ensures) == 0 {
-		rs = c.pureApp(st, key, sig, recv, args)
-	} else if ct.Pure && !isRepo {
+	if !isRepo && !ct.Impure {
+		// library functions are functions of their arguments unless declared impure
 		rs = c.pureApp(st, key, sig, recv, args)
 	} else {
 		for i := 0; i < nres; i++ {
@@ -542,71 +553,9 @@ func (c *FnCtx) havocAllHeap(st *State) {
 	c.assumptionsUsed["calls to repository functions without contract havoc the whole heap known to the caller"] = true
 }
 
-// havocLocation applies one assigns item: x.f (a field location), m[*] (contents of a map), *p (a cell),
-// s.* (all fields of the struct behind s)
+// havocLocation applies one assigns item: x.f (a field location), m[all] (contents of a map), *p (a cell).
 func (c *FnCtx) havocLocation(st *State, loc *SExpr, env map[string]*Term, pre *State) {
-	switch loc.Kind {
-	case "sel":
-		base := c.specEval(st, loc.Args[0], env, pre)
-		bt := base.GoT
-		if bt == nil || !isPointer(bt) || !isRepoStruct(deref(bt)) {
-			c.unsupportedf(nil, "%s: assigns %s: not a field of a repository struct behind a pointer", loc.Pos, loc)
-		}
-		s := structOf(deref(bt))
-		name := c.ts.sortOf(deref(bt))
-		idx := fieldIndex(s, loc.Name)
-		if idx < 0 {
-			c.unsupportedf(nil, "%s: assigns %s: no such field", loc.Pos, loc)
-		}
-		f := s.Field(idx)
-		fs := c.ts.sortOf(f.Type())
-		nv := c.smt.freshConst("hv_"+f.Name(), fs)
-		c.heapWrite(st, fieldHeapName(name, f.Name()), fs, base, nv)
-	case "index":
-		// m[*] written as m[all]
-		m := c.specEval(st, loc.Args[0], env, pre)
-		mt, ok := types.Unalias(m.GoT).Underlying().(*types.Map)
-		if !ok {
-			c.unsupportedf(nil, "%s: assigns %s: not a map", loc.Pos, loc)
-		}
-		ks, vs := c.mapSorts(mt)
-		c.heapWrite(st, mapDomName(ks, vs), arraySort(ks, SBool), m, c.smt.freshConst("hv_dom", arraySort(ks, SBool)))
-		c.heapWrite(st, mapValName(ks, vs), arraySort(ks, vs), m, c.smt.freshConst("hv_val", arraySort(ks, vs)))
-	case "unary":
-		if loc.Name == "*" {
-			p := c.specEval(st, loc.Args[0], env, pre)
-			et := deref(p.GoT)
-			if isRepoStruct(et) {
-				s := structOf(et)
-				name := c.ts.sortOf(et)
-				for i := 0; i < s.NumFields(); i++ {
-					f := s.Field(i)
-					fs := c.ts.sortOf(f.Type())
-					c.heapWrite(st, fieldHeapName(name, f.Name()), fs, p, c.smt.freshConst("hv_"+f.Name(), fs))
-				}
-				return
-			}
-			srt := c.ts.sortOf(et)
-			c.heapWrite(st, "Hp_"+mangleSort(srt), srt, p, c.smt.freshConst("hv_cell", srt))
-			return
-		}
-		fallthrough
-	case "call":
-		// allmaps(K,V): every map with these key/value types may change (maps reachable through nested structures)
-		if loc.Kind == "call" && loc.Args[0].Kind == "ident" && loc.Args[0].Name == "heap" {
-			// heap(H_name): havoc a whole heap array by name
-			for _, a := range loc.Args[1:] {
-				if arr, ok := st.heap[a.Name]; ok {
-					_, v := arraySorts(arr.Sort)
-					c.heapHavoc(st, a.Name, v)
-				} else {
-					c.unsupportedf(nil, "%s: assigns heap(%s): unknown heap array (declare it by reading it in a requires clause)", loc.Pos, a.Name)
-				}
-			}
-			return
-		}
-		fallthrough
-	default:
-		c.unsupportedf(nil, "%s: unsupported assigns item %s", loc.Pos, loc)
+	for _, hl := range c.locHeaps(pre, loc, env) {
+		c.heapWrite(st, hl.name, hl.sort, hl.ref, c.smt.freshConst("hv", hl.sort))
 	}
 }
